@@ -227,7 +227,7 @@ def one(cfg, schedule, seed):
         like.keep_log = False
         with attach.Hooks() as hk:
             attach.iteration_budget(hk, 300)
-            s.run(n_total=c["n_total"], progress=bool(c.get("progress")))
+            s.run(n_total=c["n_total"], progress=runs.prog(c))
     except Exception as e:
         return dict(error=f"{type(e).__name__}: {e}", trace=fmt_exc()[-500:])
     finally:
